@@ -113,7 +113,7 @@ class C23(SchedCheck):
         obs, raw = self.native(runner, case)
         if obs is None: return f"canary input failed natively: {raw}"
         col = Collect()
-        info, edges = obs
+        info, edges = obs[0], obs[1][0]
         bad = [e for e in edges if not (e[0][0] == "InstructionIndex" and e[1][0] == "InstructionIndex")]
         oracle("C23", col, info, bad)
         return True if col.failed else "oracle accepted a graph without the write->read edge"
